@@ -24,6 +24,7 @@ type Ctx struct {
 	phiOv   map[*ssa.Phi]Value
 	envOv   map[ssa.Value]Value
 	loop    *loopInfo
+	blk     *ssa.BasicBlock // program point (for resolving local names to their reaching definition)
 	bound   map[string]*Term
 	extra   map[string]Value // extra named values (cut symbols etc.)
 	useOld  bool
@@ -156,6 +157,41 @@ func (c *Ctx) lookupName(name string) (Value, bool) {
 				found = append(found, v)
 			} else if k, ok := cv.(*ssa.Const); ok {
 				found = append(found, c.ex.constVal(k))
+			}
+		}
+		// an addressable local (it has a stack/heap cell): the cell is the variable
+		for _, cv := range cands {
+			if a, ok := cv.(*ssa.Alloc); ok && a.Comment == name {
+				if v, ok := c.ex.env[cv]; ok {
+					return v, true
+				}
+			}
+		}
+		if len(found) > 1 && c.blk != nil {
+			// SSA reaching definition: among the definitions that dominate the program point, the one
+			// deepest in the dominator tree
+			var best ssa.Value
+			bestDepth := -1
+			for _, cv := range cands {
+				ins, ok := cv.(ssa.Instruction)
+				if !ok || ins.Block() == nil {
+					continue
+				}
+				if _, has := c.ex.env[cv]; !has {
+					continue
+				}
+				if ins.Block() == c.blk || ins.Block().Dominates(c.blk) {
+					d := 0
+					for b := ins.Block(); b != nil; b = b.Idom() {
+						d++
+					}
+					if d > bestDepth {
+						bestDepth, best = d, cv
+					}
+				}
+			}
+			if best != nil {
+				return c.ex.env[best], true
 			}
 		}
 		if len(found) == 1 {
@@ -453,6 +489,8 @@ func (c *Ctx) eval(sx *SX) Value {
 			c.fail("bufstr: no symbolic backing array")
 		}
 		return mkStr(sa.Arr, sl.Off, sl.Len)
+	case "i2f":
+		return mkI2F(c.evalT(args[0]))
 	case "same-str":
 		// structural identity: the same window of the same byte array
 		a, b := c.evalT(args[0]), c.evalT(args[1])
